@@ -1577,6 +1577,137 @@ Theorem encode_total : forall s v,
   exists items, encode_items s v = Some items /\ file_names_ok (afile_of items).
 Proof. intros s v Hw Ht. apply (all_deepEOK (FStruct s)); assumption. Qed.
 
+(* ---- the destination body: EncodeIntoBody REPLACES, whatever the body held ------------------ *)
+Section WitemInd.
+  Variable P : witem -> Prop.
+  Hypothesis Ha : forall n v, P (WAttr n v).
+  Hypothesis Hn : P WNewline.
+  Hypothesis Hb : forall ty ls body, Forall P body -> P (WBlock ty ls body).
+  Fixpoint witem_ind' (i : witem) : P i :=
+    match i with
+    | WAttr n v => Ha n v
+    | WNewline => Hn
+    | WBlock ty ls body =>
+        Hb ty ls body ((fix go (l : list witem) : Forall P l :=
+                          match l with
+                          | [] => Forall_nil _
+                          | x :: r => Forall_cons x (witem_ind' x) (go r)
+                          end) body)
+    end.
+End WitemInd.
+
+Definition wattr_names (b : list witem) : list (list Z) := map fst (flat_map item_attr b).
+
+Lemma NoDup_app_tail {A} (l l' : list A) : NoDup (l ++ l') -> NoDup l'.
+Proof. induction l as [|a l IH]; cbn; [auto|]. intro H. inversion H; subst. auto. Qed.
+
+Lemma wattr_names_app a b : wattr_names (a ++ b) = wattr_names a ++ wattr_names b.
+Proof. unfold wattr_names. rewrite flat_map_app, map_app. reflexivity. Qed.
+
+(* SetAttributeValue of a name the body does not hold appends *)
+Lemma wb_set_attr_fresh n v : forall b, ~ In n (wattr_names b) -> wb_set_attr n v b = b ++ [WAttr n v].
+Proof.
+  induction b as [|i r IH]; intro Hn; [reflexivity|].
+  destruct i as [n' v'| |ty ls body]; cbn [wb_set_attr app].
+  - destruct (str_eqb n n') eqn:E.
+    + apply str_eqb_eq in E. subst n'. exfalso. apply Hn. left. reflexivity.
+    + rewrite IH; [reflexivity|]. intro H. apply Hn. right. exact H.
+  - rewrite IH; [reflexivity|exact Hn].
+  - rewrite IH; [reflexivity|exact Hn].
+Qed.
+
+(* the file of the calls has distinct attribute names in every body (what encode_total gives) *)
+Definition calls_ok (calls : list witem) : Prop := file_names_ok (afile_of calls).
+
+Lemma calls_ok_nodup calls : calls_ok calls -> NoDup (wattr_names calls).
+Proof. unfold calls_ok, afile_of. cbn [file_names_ok]. intros [H _]. exact H. Qed.
+
+Lemma calls_ok_block calls ty ls body :
+  calls_ok calls -> In (WBlock ty ls body) calls -> calls_ok body.
+Proof.
+  unfold calls_ok at 1, afile_of. cbn [file_names_ok]. intros [_ [_ Hb]] Hin.
+  assert (Hbl : In (ty, ls, afile_of body) (flat_map item_blocks calls)).
+  { apply in_flat_map. exists (WBlock ty ls body). split; [exact Hin|]. left. reflexivity. }
+  destruct (blocks_all_in (fun bl => is_ident (fst (fst bl)) = true /\ file_names_ok (snd bl)) _ Hb _ Hbl) as [_ H].
+  exact H.
+Qed.
+
+Definition run_fresh (c : witem) : Prop :=
+  match c with
+  | WBlock ty ls body => calls_ok body -> fold_left wb_call body [] = body
+  | _ => True
+  end.
+
+Lemma wb_run_app : forall calls, Forall run_fresh calls -> calls_ok calls ->
+  forall keep : list witem, (forall c, In c calls -> In c keep) -> calls_ok keep ->
+  forall pre, NoDup (wattr_names pre ++ wattr_names calls) ->
+  fold_left wb_call calls pre = pre ++ calls.
+Proof.
+  induction calls as [|c r IH]; intros HF Hok keep Hsub Hkeep pre Hnd; [cbn; rewrite app_nil_r; reflexivity|].
+  inversion HF as [|c0 r0 Hc Hr]; subst c0 r0.
+  cbn [fold_left].
+  assert (Hok_r : calls_ok r).
+  { clear - Hok. unfold calls_ok, afile_of in *. cbn [file_names_ok flat_map] in *.
+    destruct Hok as [H1 [H2 H3]]. split; [|split].
+    - rewrite map_app in H1. eapply NoDup_app_tail. exact H1.
+    - intros p Hp. apply H2. apply in_or_app. right. exact Hp.
+    - apply (file_names_ok_blocks (fun bl => is_ident (fst (fst bl)) = true /\ file_names_ok (snd bl))).
+      intros bl Hbl. apply (blocks_all_in _ _ H3). apply in_or_app. right. exact Hbl. }
+  assert (Hsub_r : forall c', In c' r -> In c' keep) by (intros c' H'; apply Hsub; right; exact H').
+  destruct c as [n v| |ty ls body].
+  - (* attribute: its name is held neither by pre nor by the rest *)
+    assert (Hn : ~ In n (wattr_names pre)).
+    { intro Hin. unfold wattr_names at 2 in Hnd. cbn [flat_map item_attr app map fst] in Hnd.
+      apply NoDup_remove_2 in Hnd. apply Hnd. apply in_or_app. left. exact Hin. }
+    cbn [wb_call]. rewrite (wb_set_attr_fresh n v pre Hn).
+    rewrite (IH Hr Hok_r keep Hsub_r Hkeep).
+    + rewrite <- app_assoc. reflexivity.
+    + rewrite wattr_names_app. unfold wattr_names at 2. cbn [flat_map item_attr app map fst].
+      rewrite <- app_assoc. cbn [app].
+      unfold wattr_names at 2 in Hnd. cbn [flat_map item_attr app map fst] in Hnd. exact Hnd.
+  - cbn [wb_call]. rewrite (IH Hr Hok_r keep Hsub_r Hkeep).
+    + rewrite <- app_assoc. reflexivity.
+    + rewrite wattr_names_app. unfold wattr_names at 2. cbn [flat_map item_attr app map]. rewrite app_nil_r. exact Hnd.
+  - cbn [wb_call]. cbn [run_fresh] in Hc.
+    rewrite Hc; [|apply (calls_ok_block keep ty ls body Hkeep); apply Hsub; left; reflexivity].
+    rewrite (IH Hr Hok_r keep Hsub_r Hkeep).
+    + rewrite <- app_assoc. reflexivity.
+    + rewrite wattr_names_app. unfold wattr_names at 2. cbn [flat_map item_attr app map]. rewrite app_nil_r. exact Hnd.
+Qed.
+
+Lemma all_run_fresh : forall c, run_fresh c.
+Proof.
+  apply witem_ind'; cbn [run_fresh]; auto.
+  intros ty ls body HF Hok.
+  rewrite (wb_run_app body HF Hok body (fun c H => H) Hok []); [reflexivity|].
+  cbn [wattr_names flat_map map app]. apply calls_ok_nodup. exact Hok.
+Qed.
+
+(* on an empty body the calls of populateBody leave exactly the items they name: no
+   SetAttributeValue finds an attribute to replace *)
+Lemma wb_run_fresh calls : calls_ok calls -> wb_run calls [] = calls.
+Proof.
+  intro Hok. unfold wb_run.
+  rewrite (wb_run_app calls (proj2 (Forall_forall _ _) (fun c _ => all_run_fresh c)) Hok calls (fun c H => H) Hok []);
+    [reflexivity|].
+  cbn [wattr_names flat_map map app]. apply calls_ok_nodup. exact Hok.
+Qed.
+
+(* EncodeIntoBody into ANY destination body — whatever items it held before: the result is
+   the body a fresh destination gets, item for item; nothing of dst survives, nothing is
+   replaced in place, nothing is left out. *)
+Theorem encode_into_any_dest : forall dst s v,
+  wf_schema s -> vtyped (FStruct s) v = true ->
+  exists items, encode_items s v = Some items /\ encode_into dst s v = Some items.
+Proof.
+  intros dst s v Hw Ht. destruct (encode_total s v Hw Ht) as [items [E Hok]].
+  exists items. split; [exact E|]. unfold encode_into. rewrite E. unfold wb_clear.
+  rewrite (wb_run_fresh items Hok). reflexivity.
+Qed.
+
+Corollary encode_into_dest_irrelevant : forall dst1 dst2 s v, encode_into dst1 s v = encode_into dst2 s v.
+Proof. intros. reflexivity. Qed.
+
 (* ---- from the abstract file to source text and back: C12, C02, C11 as hypotheses ---------- *)
 Section Pipeline.
   Variable src : Type.                          (* source text *)
